@@ -493,7 +493,8 @@ def long_lines(r, seed, tier):
     # patch" shows one rung above it and nowhere below)
     for b in ([4194304, 16777216] if thorough else [4194304]):
         add(b, "late", pre=seed % 5)
-        add(b, "kept-sandwich", pre=1 + seed % 4)
+        if b <= 4194304:
+            add(b, "kept-sandwich", pre=1 + seed % 4)
     # very many short lines
     for i, n in enumerate([300, 1100, 4200, 9000, 33000, 70000] + ([140000, 300000] if thorough else [])):
         out.append(("patch-many", p_many(r, n, (i + seed) % 3)))
